@@ -192,10 +192,22 @@ def check(ctx: Ctx) -> None:
             ctx.violation('C04.b', dec.qualname, 'encode of %s lays the symbols out with order %s but decode reads them back with order '
                           '%s: the decoded stream is a permutation of the data' % (cname, eo, do), dec.path, dec.lineno, operand='order:' + cname)
 
-    _check_algebra(ctx)
+    from ..commit import check_family
+    check_family(ctx, 'C04.e', ['MimoBase'], floor=7)
+    from ..idioms import check_input_immutability, public_api
+    check_input_immutability(ctx, 'C04.f', public_api(ctx.model, [MI], include={'encode', 'decode', 'set_channel_matrix'}), floor=10)
+    # the algebraic extraction may have to answer "cannot tell"; the definite rules below must still be evaluated first
+    from ..overlay import AnalysisError
+    deferred = None
+    try:
+        _check_algebra(ctx)
+    except AnalysisError as e:
+        deferred = e
     from ..dsf import auto_memo_check
     ctx.rule('C04.c', 'no auto-discovered lazily filled cache of the classes in the anchored modules can be stale at the exit of a public method (dependencies = what the fill expression reads, incl. mutating calls on held sub-objects)', floor=6)
     auto_memo_check(ctx, 'C04.c', [MI])
+    if deferred is not None:
+        raise deferred
     if cannot_tell:
         if not ctx.violations:
             ctx.error('C04.a: shape interpreter cannot tell for ' + '; '.join(cannot_tell))
@@ -324,6 +336,10 @@ def synthetic():
 
 
 MUTANTS = [
+    Mutant('alamouti-stores-before-check', MI, 'Alamouti.set_channel_matrix',
+           [('regex', r'(        _, Nt = channel\.shape\n)', r'\1        super().set_channel_matrix(channel)\n')], r'C04\.e:Alamouti\.set_channel_matrix'),
+    Mutant('blast-noise-var-stored-before-check', MI, 'Blast.set_noise_var',
+           [('regex', r'(    if noise_var is None:)', r'    self._noise_var = noise_var\n\1')], r'C04\.e:Blast\.set_noise_var'),
     Mutant('revert-fix-svd-full-matrices', MI, 'SVDMimo._calc_receive_filter',
            [('regex', r'np\.linalg\.svd\(channel, full_matrices=False\)', 'np.linalg.svd(channel)')], r'C04\.a:SVDMimo\._calc_receive_filter'),
     Mutant('mmse-eye-Nr', MI, 'MimoBase._calcMMSEFilter', [('replace', 'Nt = H.shape[1]', 'Nt = H.shape[0]')], r'C04\.a:MimoBase\._calcMMSEFilter'),
